@@ -35,7 +35,8 @@ type c20Cfg struct {
 	// filled by the parent
 	Product  string    `json:"product,omitempty"`
 	Fallback string    `json:"fallback,omitempty"`
-	Cand     [3]string `json:"cand,omitempty"` // abstract names of the socket candidates ("" for non-sockets)
+	Cand     [3]string `json:"cand,omitempty"` // addresses of the socket candidates ("" for non-sockets)
+	CandNet  [3]string `json:"cand_net,omitempty"` // their networks ("" = unix)
 }
 
 // refActivation restates the property: index (0..2) of the inherited descriptor to serve on, or -1 = fall back
@@ -71,7 +72,7 @@ func refActivation(c c20Cfg) (sel int) {
 			return -1
 		}
 	}
-	if idx > 2 || c.Kinds[idx] != "sock" {
+	if idx > 2 || !strings.HasSuffix(c.Kinds[idx], "sock") {
 		return -1 // not a socket (or not a descriptor we passed): fall back
 	}
 	return idx
@@ -135,6 +136,14 @@ func c20Configs(tier string) []c20Cfg {
 			}
 		}
 	}
+	// inherited sockets that are not abstract unix sockets (TCP, unix path), with every kind of address argument
+	for _, k0 := range []string{"tcpsock", "pathsock"} {
+		for _, a := range []string{"valid", "invalid", "fspath"} {
+			out = append(out, c20Cfg{Pid: "own", FDS: sp("1"), Kinds: [3]string{k0, "sock", "sock"}, Addr: a})
+			out = append(out, c20Cfg{Pid: "own", FDS: sp("2"), Names: sp("a:varlink"), Kinds: [3]string{"sock", k0, "sock"}, Addr: a})
+			out = append(out, c20Cfg{Pid: "other", FDS: sp("1"), Kinds: [3]string{k0, "sock", "sock"}, Addr: a})
+		}
+	}
 	return out
 }
 
@@ -177,6 +186,33 @@ func runC20Config(c c20Cfg) (msg, key, outcome string) {
 			files = append(files, f)
 			closers = append(closers, f)
 			c.Cand[i] = name
+		case "tcpsock", "pathsock":
+			// an inherited listening socket that is not an abstract unix socket: TCP loopback, or a unix socket with a
+			// path in the filesystem (which is still there when the service has gone: it never was the service's to remove)
+			var l net.Listener
+			var err error
+			if k == "tcpsock" {
+				l, err = net.Listen("tcp", "127.0.0.1:0")
+				c.CandNet[i] = "tcp"
+			} else {
+				p := fmt.Sprintf("c20-%s-fd%d.sock", tag, 3+i)
+				l, err = net.Listen("unix", p)
+				if err == nil {
+					l.(*net.UnixListener).SetUnlinkOnClose(false)
+					defer os.Remove(p)
+				}
+			}
+			if err != nil {
+				return "listen: " + err.Error(), "infra", ""
+			}
+			closers = append(closers, l)
+			f, err := l.(interface{ File() (*os.File, error) }).File()
+			if err != nil {
+				return err.Error(), "infra", ""
+			}
+			files = append(files, f)
+			closers = append(closers, f)
+			c.Cand[i] = l.Addr().String()
 		case "file":
 			f, err := os.CreateTemp(".", "c20-file-")
 			if err != nil {
@@ -249,8 +285,12 @@ func runC20Config(c c20Cfg) (msg, key, outcome string) {
 	case strings.HasPrefix(line, "READY "):
 		got := strings.TrimPrefix(line, "READY ")
 		want := "unix " + c.Fallback
+		wantNet := "unix"
 		if sel >= 0 {
-			want = "unix " + c.Cand[sel]
+			if c.CandNet[sel] != "" {
+				wantNet = c.CandNet[sel]
+			}
+			want = wantNet + " " + c.Cand[sel]
 		}
 		if sel >= 0 && pathFile != "" {
 			if b, err := os.ReadFile(pathFile); err != nil || string(b) != "precious" {
@@ -267,8 +307,8 @@ func runC20Config(c c20Cfg) (msg, key, outcome string) {
 			return fmt.Sprintf("service listens on %q, reference selector says %q", got, want), "symptom=wrong-endpoint " + cfgKey, ""
 		}
 		// black-box confirmation: that endpoint answers GetInfo with this helper's product string
-		addr := strings.TrimPrefix(want, "unix ")
-		conn, err := net.Dial("unix", addr)
+		addr := strings.TrimPrefix(want, wantNet+" ")
+		conn, err := net.Dial(wantNet, addr)
 		if err != nil {
 			finish()
 			return "dial " + addr + ": " + err.Error(), "symptom=endpoint-unreachable " + cfgKey, ""
@@ -287,6 +327,11 @@ func runC20Config(c c20Cfg) (msg, key, outcome string) {
 		cmd.Wait()
 		if !strings.Contains(string(rest), "DONE <nil>") {
 			return "after Shutdown the helper reported " + strings.TrimSpace(string(rest)) + " " + stderr.String(), "symptom=shutdown-error " + cfgKey, ""
+		}
+		if sel >= 0 && c.Kinds[sel] == "pathsock" {
+			if _, err := os.Stat(c.Cand[sel]); err != nil {
+				return fmt.Sprintf("the inherited unix socket %s was removed from the filesystem when the service ended: %v", c.Cand[sel], err), "symptom=inherited-socket-path-removed " + cfgKey, ""
+			}
 		}
 		if sel >= 0 && pathFile != "" {
 			// ... and stays untouched when serving ends (teardown must not clean up an address it never bound)
